@@ -194,3 +194,29 @@ PROPS["C11"] = dict(
         cvdeep("barrier3", [co("a1", ["barrier"]), th("a2", ["barrier"]), co("a3", ["barrier"])], barrier=3, deep=False, n=300),
     ],
 )
+
+def cqunit(name, cfg, events, npoll, owner_co=False, n=300, fixed_cfg=None, **kw):
+    tlc = [("spec/l2/MCCqueue.tla", cfg)] + ([("spec/l2/MCCqueue.tla", fixed_cfg)] if fixed_cfg else [])
+    return dict(name=name, scenario="cqueue", tlc=tlc, sim_spec=("spec/l2/MCCqueue.tla", fixed_cfg or cfg),
+                params=dict(events=events, npoll=npoll, owner_co=owner_co, workers=8),
+                quick=dict(sim=dict(num=n, depth=300), explore=dict(n=200), dfs=dict(max=300, pb=2)),
+                thorough=dict(sim=dict(num=5000, depth=300), explore=dict(n=3000), dfs=dict(max=5000, pb=3)), **kw)
+
+C16_UNITS = [
+    cqunit("select2", "spec/l2/MCCqueue_F8.cfg", [1, 1], 1, owner_co=False,
+           tlc_expect_error="FinishedMeansJoined is violated|NoArmRunningAtReturn is violated", fixed_cfg="spec/l2/MCCqueue_select2.cfg"),
+    cqunit("select2_co", "spec/l2/MCCqueue_select2.cfg", [1, 1], 1, owner_co=True),
+    cqunit("poll3", "spec/l2/MCCqueue_poll3.cfg", [2, 1], 3, owner_co=True),
+    cqunit("select3", "spec/l2/MCCqueue_select3.cfg", [1, 1, 1], 1, owner_co=False, n=300),
+]
+C16_UNITS += [
+    # finding F19: the kernel side of an arm's yield can outlive the arm and the scope
+    dict(name="kernel_race", scenario="cqueue",
+         tlc=[("spec/l2/MCCqueue.tla", "spec/l2/MCCqueue_F19.cfg"), ("spec/l2/MCCqueue.tla", "spec/l2/MCCqueue_F19fixed.cfg")],
+         tlc_expect_error="NoKernelAtReturn is violated",
+         sim_spec=("spec/l2/MCCqueue.tla", "spec/l2/MCCqueue_F19fixed.cfg"),
+         params=dict(events=[1, 1], npoll=1, owner_co=False, workers=8, urgent_kernel=False),
+         quick=dict(sim=dict(num=150, depth=300), explore=dict(n=150), dfs=dict(max=200, pb=2)),
+         thorough=dict(sim=dict(num=2000, depth=300), explore=dict(n=2000), dfs=dict(max=3000, pb=3))),
+]
+PROPS["C16"] = dict(assumptions=["the event queue is a linearizable FIFO (C03); AbsBlocker (C02); join contract (C01)"], units=C16_UNITS)
